@@ -596,6 +596,7 @@ class ClientWorld:
         self.connects = []          # [(cid, serial)] streams handed out
         self.wlog, self.rlog, self.closes = [], [], []
         self.l1 = []
+        self.l2 = []
         self.notes = []
         self.touched = set()
         self.pair = None
@@ -1019,69 +1020,75 @@ class ClientWorld:
             writes.setdefault(cid, [])
             if not writes[cid] or writes[cid][-1] != s:
                 writes[cid].append(s)
-        consumed = {}               # serial -> [(cid, bytes)]
-        desync = {}                 # cid -> defect that put it out of step
+        touch = {}                  # serial -> [(owner of the frame, bytes)]
         for conn in ag.conns:
             owners = [(s, len(b)) for s, b in conn.sent]
             oi, used = 0, 0
             for cid, s, data, exc in self.rlog:
                 if cid != conn.idx:
                     continue
-                consumed.setdefault(s, []).append(data)
                 n = len(data)
                 while n > 0 and oi < len(owners):
                     own, ln = owners[oi]
                     take = min(n, ln - used)
-                    if own != s and take > 0:
-                        cs, co = self.calls.get(s), self.calls.get(own)
-                        # once a connection is out of step it stays so: the
-                        # later mismatches have the cause of the first
-                        defect = desync.setdefault(
-                            cid, 'cancel_keeps_connection'
-                            if own in cancelled else 'none')
-                        self.flag(
-                            'OwnResponse',
-                            f'call {s} ({cs.kind if cs else "?"}, caller '
-                            f'{cs.idx if cs else "?"}) consumed {take} bytes of '
-                            f'the answer to call {own} ({co.kind if co else "?"}'
-                            f', caller {co.idx if co else "?"}'
-                            f'{", cancelled while waiting for it" if own in cancelled else ""})',
-                            defect)
+                    if take > 0:
+                        touch.setdefault(s, []).append((own, take, cid))
                     n -= take
                     used += take
                     if used == ln:
                         oi, used = oi + 1, 0
+        own_got = {s: sum(n for o, n, _ in t if o == s)
+                   for s, t in touch.items()}
+        # the answer a caller goes by is the last frame it read from (one
+        # that first reads and discards a stale answer is in order)
+        desync = {}                 # cid -> defect that put it out of step
+        foreign = set()
+        for s in sorted(touch):
+            own, take, cid = touch[s][-1]
+            if own == s:
+                continue
+            cs, co = self.calls.get(s), self.calls.get(own)
+            if cs is None or cs.outcome is None or \
+                    cs.outcome[0] not in ('ok', 'fail', 'unk', 'dec'):
+                continue            # its outcome does not come from a frame
+            foreign.add(s)
+            # once a connection is out of step it stays so: the later
+            # mismatches have the cause of the first
+            defect = desync.setdefault(
+                cid, 'cancel_keeps_connection' if own in cancelled else 'none')
+            self.flag(
+                'OwnResponse',
+                f'call {s} ({cs.kind if cs else "?"}, caller '
+                f'{cs.idx if cs else "?"}) was given the answer to call {own} '
+                f'({co.kind if co else "?"}, caller {co.idx if co else "?"}'
+                f'{", cancelled while waiting for it" if own in cancelled else ""}'
+                f'): the last {take} bytes it read are that frame\'s',
+                defect)
         # -- a request is written only on a connection in step --------------
         for cid, order in writes.items():
-            conn = ag.conns[cid] if cid < len(ag.conns) else None
             for j, s in enumerate(order):
                 for e in order[:j]:
                     ce = self.calls.get(e)
                     if ce is None or e == s:
                         continue
                     ans = ag.answers.get(e)
-                    got = sum(len(d) for d in consumed.get(e, []))
                     full = ans is not None and ans['complete'] and \
-                        got >= len(ans['frame'])
+                        own_got.get(e, 0) >= len(ans['frame'])
                     if full:
                         continue
                     oc = ce.outcome[0] if ce.outcome else None
-                    if e in cancelled or (oc is not None and cid in desync
-                                          and desync[cid] != 'none'):
-                        self.flag('NoStaleSend', f'call {s} wrote its request '
-                                  f'on connection {cid} although the answer to '
-                                  f'call {e} '
-                                  f'{"(cancelled while waiting for it) " if e in cancelled else ""}'
-                                  'had not been consumed',
-                                  'cancel_keeps_connection')
-                    elif oc == 'lost':
+                    if oc == 'lost' and e not in foreign:
                         self.flag('NoUseOfBroken', f'call {s} wrote its '
                                   f'request on connection {cid} after call {e} '
-                                  'had failed on it')
-                    elif oc is None:
-                        self.flag('Mutex', f'call {s} wrote its request on '
-                                  f'connection {cid} while call {e} was still '
-                                  'waiting for its answer')
+                                  'had been told that this connection ended')
+                    elif e in cancelled or oc is None or cid in desync:
+                        # how the implementation keeps callers apart is its
+                        # business (the model: never): not a verdict
+                        self.l2.append(
+                            f'call {s} wrote its request on connection {cid} '
+                            f'while the answer to call {e} '
+                            f'({"cancelled" if e in cancelled else oc or "waiting"}) '
+                            'was outstanding')
         # -- every caller: the outcome of ITS request ------------------------
         for s, c in self.calls.items():
             if c.outcome is None:
@@ -1100,10 +1107,10 @@ class ClientWorld:
                     self.flag('ErrorClass', f'call {s} ({c.kind}) was '
                               'cancelled by nobody')
                 continue
-            if any(cl == 'OwnResponse' for cl, _, _ in self.l1):
+            if s in foreign:
                 continue            # its input was somebody else's answer
             ans = ag.answers.get(s)
-            got = sum(len(d) for d in consumed.get(s, []))
+            got = own_got.get(s, 0)
             if ans is None or not ans['complete'] or ans['fault'] == 'zero' \
                     or got < len(ans['frame']):
                 want = 'lost'
@@ -1333,6 +1340,7 @@ def replay_client(steps, transport='unix', init_store=('ed',), units=2,
         w.loop.run_until_idle()
         w.judge()
         res['l1'] = list(w.l1)
+        res['divergences'] += [f'judge: {x}' for x in w.l2[:2]]
         res['touched'] = sorted(w.touched |
                                 {d for _, _, d in w.l1 if d != 'none'})
         res['outcomes'] = {s: (c.kind, c.outcome[0] if c.outcome else None)
@@ -1470,10 +1478,11 @@ class FwdWorld:
         os.environ.pop('SSH_AUTH_SOCK', None)
         # how the application spells the client option
         ckw = {'path': dict(agent_path=None, agent_forwarding=self.path),
-               'true': dict(agent_path=self.path, agent_forwarding=True),
+               'true': dict(agent_path=self.path, agent_forwarding=True,
+                            client_keys=[]),
                'env': dict(agent_forwarding=True),
                'off': dict(agent_path=None, agent_forwarding=False),
-               'off_agent': dict(agent_path=self.path,
+               'off_agent': dict(agent_path=self.path, client_keys=[],
                                  agent_forwarding=False),
                'true_nopath': dict(agent_path='', agent_forwarding=True),
                }[self.form]
@@ -1911,6 +1920,10 @@ def replay_fwd(steps, client_fwd=True, server_fwd=True, workdir=None, seed=0,
             elif kind == 'agentup':
                 w.toggle_agent(bool(lbl[1]))
                 res['script'].append(f'agent={lbl[1]}')
+            elif kind in ('swrite', 'send', 'relayup', 'relayupend',
+                          'awrite', 'aend') and lbl[1] not in w.ends:
+                div = f'channel {lbl[1]} is not open'
+                res['script'].append(f'{kind}{lbl[1]}?')
             elif kind == 'swrite':
                 div = w.srv_write(lbl[1])
                 res['script'].append(f'sw{lbl[1]}')
